@@ -73,10 +73,22 @@ pub fn run_schedule(acts: &[String]) -> String {
     drop(est);
     let sptr: *mut Session<mt::MemTransport> = Box::into_raw(Box::new(session));
     let mut futs: Vec<Status> = vec![];
-    let mut rpc: Option<RpcFut> = None;
-    let mut on_rpc_done = |r: Result<ReplyFut, ()>, futs: &mut Vec<Status>| {
-        if let Ok(f) = r {
+    // (the rpc() call in progress, index of the message it writes, is it a ghost send)
+    let mut rpc: Option<(RpcFut, usize)> = None;
+    // wire index of the request each future belongs to; wire indices of requests without a future
+    let fut_msg: std::cell::RefCell<Vec<usize>> = Default::default();
+    let ghost_msg: std::cell::RefCell<Vec<usize>> = Default::default();
+    let peer2 = peer.clone();
+    let on_rpc_done = |r: Result<ReplyFut, ()>, start: usize, futs: &mut Vec<Status>| match r {
+        Ok(f) => {
             futs.push(Status::Live(f));
+            fut_msg.borrow_mut().push(start);
+        }
+        Err(()) => {
+            // the call failed; did its request reach the wire all the same?
+            if peer2.sent_count() > start {
+                ghost_msg.borrow_mut().push(start);
+            }
         }
     };
     let poll_fut = |futs: &mut Vec<Status>, i: usize| {
@@ -90,34 +102,39 @@ pub fn run_schedule(acts: &[String]) -> String {
         }
     };
     for a in acts {
-        if a == "s1" || a == "s0" {
+        if a == "s1" || a == "s0" || a == "s2" {
             if rpc.is_some() {
                 continue; // `&mut self`: not expressible
+            }
+            if a == "s2" {
+                // the request reaches the server, then the send reports an error
+                peer.fail_next_send();
             }
             // SAFETY: at most one `rpc()` future exists at a time (checked above); reply futures do
             // not borrow the session (they hold Arcs)
             let s: &'static mut Session<mt::MemTransport> = unsafe { &mut *sptr };
-            let mut f: RpcFut = Box::pin(do_rpc(s, a == "s1"));
+            let start = peer.sent_count();
+            let mut f: RpcFut = Box::pin(do_rpc(s, a != "s0"));
             match poll_once(&mut f) {
-                Poll::Ready(r) => on_rpc_done(r, &mut futs),
-                Poll::Pending => rpc = Some(f),
+                Poll::Ready(r) => on_rpc_done(r, start, &mut futs),
+                Poll::Pending => rpc = Some((f, start)),
             }
         } else if a == "g0" {
             peer.gate(false);
         } else if a == "g1" {
             peer.gate(true);
-            if let Some(mut f) = rpc.take() {
+            if let Some((mut f, start)) = rpc.take() {
                 match poll_once(&mut f) {
-                    Poll::Ready(r) => on_rpc_done(r, &mut futs),
-                    Poll::Pending => rpc = Some(f),
+                    Poll::Ready(r) => on_rpc_done(r, start, &mut futs),
+                    Poll::Pending => rpc = Some((f, start)),
                 }
             }
         } else if a == "c" {
             peer.close();
-            if let Some(mut f) = rpc.take() {
+            if let Some((mut f, start)) = rpc.take() {
                 match poll_once(&mut f) {
-                    Poll::Ready(r) => on_rpc_done(r, &mut futs),
-                    Poll::Pending => rpc = Some(f),
+                    Poll::Ready(r) => on_rpc_done(r, start, &mut futs),
+                    Poll::Pending => rpc = Some((f, start)),
                 }
             }
         } else if let Some(i) = a.strip_prefix('p') {
@@ -138,10 +155,10 @@ pub fn run_schedule(acts: &[String]) -> String {
         } else if let Some(n) = a.strip_prefix('r') {
             for _ in 0..n.parse::<usize>().unwrap() {
                 // a fair executor also polls a pending `rpc()` call
-                if let Some(mut f) = rpc.take() {
+                if let Some((mut f, start)) = rpc.take() {
                     match poll_once(&mut f) {
-                        Poll::Ready(r) => on_rpc_done(r, &mut futs),
-                        Poll::Pending => rpc = Some(f),
+                        Poll::Ready(r) => on_rpc_done(r, start, &mut futs),
+                        Poll::Pending => rpc = Some((f, start)),
                     }
                 }
                 for i in 0..futs.len() {
@@ -150,16 +167,20 @@ pub fn run_schedule(acts: &[String]) -> String {
             }
         }
     }
-    let sent: Vec<String> = peer.sent()[1..]
-        .iter()
-        .map(|m| mt::message_id_of(m).unwrap_or("?".into()))
-        .collect();
-    // the i-th successfully sent request belongs to the i-th future
+    let wire: Vec<String> = peer.sent().iter().map(|m| mt::message_id_of(m).unwrap_or("?".into())).collect();
+    // requests that reached the server although `rpc()` returned an error are not "sent" for the client
+    let ghosts = ghost_msg.borrow().clone();
+    let sent: Vec<String> = wire.iter().enumerate().skip(1).filter(|(k, _)| !ghosts.contains(k)).map(|(_, m)| m.clone()).collect();
+    // every message-id on the wire — ghosts included — must be new on this session
+    let mut all_ids: Vec<&String> = wire.iter().skip(1).collect();
+    all_ids.sort();
+    let reused = all_ids.windows(2).any(|w| w[0] == w[1]);
+    let fut_ids = fut_msg.borrow().clone();
     let shown: Vec<String> = futs
         .iter()
         .enumerate()
         .map(|(i, st)| {
-            let id = sent.get(i).cloned().unwrap_or("?".into());
+            let id = fut_ids.get(i).and_then(|k| wire.get(*k)).cloned().unwrap_or("?".into());
             let s = match st {
                 Status::Live(_) => "pending".to_string(),
                 Status::Ok(v) => format!("ok{v}"),
@@ -174,13 +195,14 @@ pub fn run_schedule(acts: &[String]) -> String {
     // SAFETY: all futures borrowing or sharing the session are gone
     unsafe { drop(Box::from_raw(sptr)) };
     format!(
-        "sent={} futs={}",
+        "sent={} futs={}{}",
         list(&sent),
         if shown.is_empty() {
             ".".into()
         } else {
             shown.join(";")
-        }
+        },
+        if reused { " message-id-reused" } else { "" }
     )
 }
 
@@ -193,6 +215,8 @@ struct Shadow {
     gate_open: bool,
     closed: bool,
     tag: u64,
+    /// ids of requests that reached the server although their send reported an error
+    ghost: Vec<u64>,
 }
 
 fn gen_random(rng: &mut Rng, max_len: usize, clean: bool) -> Vec<String> {
@@ -207,15 +231,20 @@ fn gen_random(rng: &mut Rng, max_len: usize, clean: bool) -> Vec<String> {
         let choice = rng.below(100);
         if choice < 22 && sh.blocked.is_none() && sh.futs.len() < 5 {
             let ok = clean || rng.chance(9, 10);
+            // a send that fails AFTER the request reached the server (only with the gate open and the
+            // transport up: otherwise nothing is written at all)
+            let lost = !clean && ok && sh.gate_open && !sh.closed && rng.chance(1, 8);
             sh.ids += 1;
-            if ok && !sh.closed {
+            if lost {
+                sh.ghost.push(sh.ids);
+            } else if ok && !sh.closed {
                 if sh.gate_open {
                     sh.futs.push(sh.ids);
                 } else {
                     sh.blocked = Some(sh.ids);
                 }
             }
-            acts.push(if ok { "s1" } else { "s0" }.to_string());
+            acts.push(if lost { "s2" } else if ok { "s1" } else { "s0" }.to_string());
         } else if choice < 50 && !sh.futs.is_empty() {
             acts.push(format!("p{}", rng.below(sh.futs.len())));
         } else if choice < 75 && (sh.ids > 0) {
@@ -233,7 +262,9 @@ fn gen_random(rng: &mut Rng, max_len: usize, clean: bool) -> Vec<String> {
                     acts.push(format!("d{id}/{tag}/1"));
                 }
             } else {
-                match rng.below(4) {
+                match rng.below(if sh.ghost.is_empty() { 4 } else { 7 }) {
+                    // the server answers a request whose send reported an error
+                    4..=6 => acts.push(format!("d{}/{tag}/1", rng.pick(&sh.ghost))),
                     0 => acts.push(format!("dn/{tag}/1")),
                     1 => acts.push(format!("d{}/{tag}/1", 90 + rng.below(5))),
                     2 => acts.push(format!("d{}/{tag}/0", 1 + rng.below(sh.ids as usize))),
@@ -300,6 +331,11 @@ fn gen_drop_windows() -> Vec<Vec<String>> {
         ]),
         // session stays usable: new request after drops
         s(&["s1", "p0", "x0", "s1", "d2/22/1", "r8"]),
+        // a send that fails after the request reached the server; the server answers it all the same
+        s(&["s1", "s2", "s1", "d2/22/1", "d1/11/1", "d3/33/1", "r8"]),
+        s(&["s1", "s2", "s1", "p0", "p1", "d2/22/1", "d3/33/1", "d1/11/1", "r8"]),
+        s(&["s2", "s1", "d1/11/1", "d2/22/1", "r8"]),
+        s(&["s1", "s2", "s2", "s1", "d3/33/1", "d4/44/1", "d2/22/1", "d1/11/1", "r8"]),
         s(&["s1", "s1", "p1", "x1", "s1", "d1/11/1", "d3/33/1", "r8"]),
     ]
 }
@@ -387,6 +423,13 @@ pub fn main(opts: &Opts) {
         progress(&case);
         let obs = run_schedule(s);
         progress_idle();
+        let obs = match obs.strip_suffix(" message-id-reused") {
+            Some(o) => {
+                sink.direct(&case, "violation message-id-reused".into());
+                o.to_string()
+            }
+            None => obs,
+        };
         sink.corr(&case, format!("sess run {cfg} {case}"), obs.clone());
         sink.spec(&case, format!("sess spec {case} {obs}"));
         sink.count(&format!("len.{}", (s.len() / 4) * 4));
